@@ -56,7 +56,10 @@ def _install(m, env, residents):
     """Write an I3 state directly (not through the API)."""
     for a in residents:
         env.agents[a.id] = a
-    m.systems.component_pools = _i3_pools(residents)
+    # (filled in place: the mapping object itself is whatever the scheduler's constructor created)
+    m.systems.component_pools.clear()
+    for T, lst in _i3_pools(residents).items():
+        m.systems.component_pools[T] = lst
 
 
 def _check_i3(m, residents, what="listing"):
@@ -98,8 +101,8 @@ def _world(m, kind):
         w = Env.SpaceWorld(m, 5, 0, 0, wrap_env=True)
     else:
         w = _REAL[kind]
-        w.agents = {}
-        w.components = {}
+        w.agents.clear()
+        w.components.clear()
         w.set_model(m)
     m.environment = w
     return w
@@ -203,8 +206,8 @@ def install_populated(a1: bool, a2: bool, b1: bool, b2: bool, use_setter: bool) 
         w = Env.SpaceWorld(m, 5, 4, 3)
     else:
         w = _REAL[kind]
-        w.agents = {}
-        w.components = {}
+        w.agents.clear()
+        w.components.clear()
         w.set_model(m)
     residents = [_mk_agent(m, "r0", a1, a2, False), _mk_agent(m, "r1", b1, b2, True)]
     for a in residents:
